@@ -107,6 +107,8 @@ inductive Res where
   | errDrain
   | errObs
   | other
+  /-- the process was killed (by a signal) before `Start` returned -/
+  | killed
   /-- never returned -/
   | hang
   | panic
